@@ -48,25 +48,36 @@ class KeySet:
         self.keys = {}
         curves = {"P-256": ec.SECP256R1(), "P-384": ec.SECP384R1(), "P-521": ec.SECP521R1()}
         bits = {"P-256": 256, "P-384": 384, "P-521": 521}
-        for ktype in ("P-256", "P-384", "P-521", "Ed25519"):
+        types = ("P-256", "P-384", "P-521", "Ed25519")
+
+        def make(name, ktype, enc, material):
+            h = hashlib.sha512(material.encode()).digest()
+            if ktype == "Ed25519":
+                sk = ed25519.Ed25519PrivateKey.from_private_bytes(h[:32])
+                raw = sk.public_key().public_bytes(ser.Encoding.Raw, ser.PublicFormat.Raw)
+                pub = ("ed", raw)
+            else:
+                d = int.from_bytes(h + hashlib.sha512(h).digest(), "big") % (1 << (bits[ktype] - 8)) + 1
+                sk = ec.derive_private_key(d, curves[ktype])
+                nums = sk.public_key().public_numbers()
+                pub = ("ec", ktype, nums.x, nums.y)
+            data = sk.private_bytes(ser.Encoding.PEM if enc == "pem" else ser.Encoding.DER,
+                                    ser.PrivateFormat.PKCS8, ser.NoEncryption())
+            with open(os.path.join(directory, f"{name}.{enc}"), "wb") as fh:
+                fh.write(data)
+            self.keys.setdefault(ktype, []).append(Key(name, ktype, enc, pub))
+
+        for ti, ktype in enumerate(types):
             for i in range(per_type):
                 enc = "pem" if i % 2 == 0 else "der"
                 name = f"k_{ktype.replace('-', '').lower()}_{i}"
-                h = hashlib.sha512(f"{seedstr}/{ktype}/{i}".encode()).digest()
-                if ktype == "Ed25519":
-                    sk = ed25519.Ed25519PrivateKey.from_private_bytes(h[:32])
-                    raw = sk.public_key().public_bytes(ser.Encoding.Raw, ser.PublicFormat.Raw)
-                    pub = ("ed", raw)
-                else:
-                    d = int.from_bytes(h + hashlib.sha512(h).digest(), "big") % (1 << (bits[ktype] - 8)) + 1
-                    sk = ec.derive_private_key(d, curves[ktype])
-                    nums = sk.public_key().public_numbers()
-                    pub = ("ec", ktype, nums.x, nums.y)
-                data = sk.private_bytes(ser.Encoding.PEM if enc == "pem" else ser.Encoding.DER,
-                                        ser.PrivateFormat.PKCS8, ser.NoEncryption())
-                with open(os.path.join(directory, f"{name}.{enc}"), "wb") as fh:
-                    fh.write(data)
-                self.keys.setdefault(ktype, []).append(Key(name, ktype, enc, pub))
+                make(name, ktype, enc, f"{seedstr}/{ktype}/{i}")
+                # key names that contain a dot and have a sibling named like the part before the dot: ANOTHER key of
+                # the same type, and (for the first key of a type) a key of another type - the named key must be used
+                make(name + ".v2", ktype, enc, f"{seedstr}/{ktype}/{i}/v2")
+                if i == 0:
+                    other = types[(ti + 1) % len(types)]
+                    make(name + ".x", other, enc, f"{seedstr}/{ktype}/{i}/x")
 
     def pick(self, r, alg, mismatch=False):
         ktype = ALGS[alg][1]
